@@ -50,6 +50,14 @@ func NewHistory(path string, maxSize int) (*History, error) {
 		cursor:   len(lines) - 1}, nil
 }
 
+// trim keeps the most recent maxSize entries of a file that holds more
+func (h *History) trim() {
+	if n := len(h.lines) - 1; n > h.maxSize {
+		h.lines = h.lines[n-h.maxSize:]
+		h.cursor = len(h.lines) - 1
+	}
+}
+
 func (h *History) append(line string) error {
 	// We don't append empty lines
 	if len(line) == 0 {
